@@ -1248,6 +1248,27 @@ async fn scenario_c14(seed: u64, id: u64, base: &Path, r: &mut PropReport) {
                 let n1 = tower.state.lock().unwrap().log.len();
                 if n1 != n0 {
                     r.violation("C14:sends-to-misbehaving-tower", format!("{ctx}: {} further requests reached the tower after it was proven misbehaving", n1 - n0), replay.clone());
+                } else if case % 2 == 0 && plugin.alive() {
+                    // the user registers with the proven-misbehaving tower once more (a correctly signed receipt that extends the
+                    // subscription): whatever the client answers, the proof stands and no appointment may go to that tower
+                    let rereg = plugin.call("registertower", json!([format!("{tid}@127.0.0.1:{}", tower.port)]), 20).await.is_ok();
+                    let adds = |t: &FakeTower| t.state.lock().unwrap().log.iter().filter(|l| l.endpoint != "register").count();
+                    let a0 = adds(&tower);
+                    for k in 0..2 {
+                        let rev3 = revocation(&mut rng, case * 10 + 5 + k);
+                        let _ = plugin.revoke(&rev3, HOOK_TIMEOUT).await;
+                    }
+                    tokio::time::sleep(Duration::from_millis(1500)).await;
+                    let a1 = adds(&tower);
+                    let lt = plugin.call("listtowers", json!([]), 10).await.ok();
+                    let status = lt.as_ref().and_then(|v| v.get(&tid)).and_then(|t| t.get("status")).and_then(|s| s.as_str()).unwrap_or("?").to_string();
+                    let has_proof = read_rows(&dir).map_or(false, |x| x.proofs.contains(&tid));
+                    r.count("re_registrations_of_a_misbehaving_tower_checked", 1);
+                    if a1 != a0 {
+                        r.violation("C14:sends-to-misbehaving-tower:after-re-registration", format!("{ctx}: the user registered again with the tower proven misbehaving (accepted by the client: {rereg}); {} appointment requests reached it afterwards (status shown: {status}, proof on disk: {has_proof})", a1 - a0), replay.clone());
+                    } else if !has_proof {
+                        r.violation("C14:proof-lost:after-re-registration", format!("{ctx}: registering again with the tower proven misbehaving removed the persisted proof (status shown: {status})"), replay.clone());
+                    }
                 }
                 r.count("misbehaviour_cases_checked", 1);
             }
@@ -1325,6 +1346,23 @@ async fn scenario_c14(seed: u64, id: u64, base: &Path, r: &mut PropReport) {
             if tower_status(&mut plugin, &tid).await.map_or(false, |(st, _)| st == "misbehaving") {
                 flagged = true;
                 break;
+            }
+        }
+        if !flagged {
+            // judged on what happened, not on the clock: was the wrongly signed acknowledgement served at all?
+            let served = tower.state.lock().unwrap().log.iter().any(|l| l.endpoint != "register" && l.beh.contains("WrongSig"));
+            if !served {
+                r.inconclusive += 1;
+                r.note(format!("{ctx}: the retry never reached the tower within 40 s (loaded machine): nothing to judge"));
+                break 'retry_path;
+            }
+            // it was: the client has the reply in hand, flagging it is a matter of moments - another 20 s are allowed
+            for _ in 0..200 {
+                tokio::time::sleep(Duration::from_millis(100)).await;
+                if tower_status(&mut plugin, &tid).await.map_or(false, |(st, _)| st == "misbehaving") {
+                    flagged = true;
+                    break;
+                }
             }
         }
         let has_proof = read_rows(&dir).as_ref().map_or(false, |x| x.proofs.contains(&tid));
